@@ -5,6 +5,8 @@ impl Stream {
     pub fn id(&self) -> (r: u32) ensures r == self.id { self.id }
     // the reader cell: after lock elision the guard is the `rd` parameter
     pub fn reader(&self) -> () { () }
+    // Stream::send_fin (group `stream`)
+    #[verifier::external_body] pub fn send_fin(&self, fx: &mut Ghost<Seq<HEffect>>) ensures final(fx)@ == old(fx)@.push(HEffect::Fin) { }
 }
 pub enum HEffect {
     Submit { frame: FrameS },                 // session.write_control_frame(frame) attempted (Ok or Err)
@@ -12,6 +14,7 @@ pub enum HEffect {
     Resolve { host: Seq<char>, port: u16 },   // resolve_host_with_cache(host, port) called
     Forward,                                  // bidirectional forwarding started
     Udp,                                      // UDP-over-TCP handler started
+    Fin,                                      // stream.send_fin(): the end of the stream announced to the peer
 }
 pub struct Session { pub pv: u8 }
 impl Session {
